@@ -1,6 +1,7 @@
 package props
 
 import (
+	"github.com/hashicorp/hcl-lang/decoder"
 	"strings"
 	"testing"
 
@@ -21,8 +22,8 @@ type C18Case struct {
 	Insert string   `json:"insert"` // whole lines (each ending in a newline)
 }
 
-// insertionPoints returns the line starts (other than offset 0) that lie outside
-// every top-level item, plus EOF when the file ends with a newline.
+// insertionPoints returns the line starts that lie outside every top-level item
+// (offset 0 included), plus EOF when the file ends with a newline.
 func insertionPoints(text string) []int {
 	f, _ := hclsyntax.ParseConfig([]byte(text), "x", hcl.InitialPos)
 	body, ok := f.Body.(*hclsyntax.Body)
@@ -59,6 +60,9 @@ func insertionPoints(text string) []int {
 		return false
 	}
 	var out []int
+	if len(text) > 0 {
+		out = append(out, 0) // in front of the first item: what sits on line 1 moves off it
+	}
 	for i := 1; i <= len(text); i++ {
 		if text[i-1] == '\n' && !inside(i) && !inToken(i) {
 			out = append(out, i)
@@ -70,7 +74,7 @@ func insertionPoints(text string) []int {
 func genC18(g gen.G) C18Case {
 	o := gen.WorldOpts{
 		Schema:   gen.SchemaOpts{MaxDepth: 2},
-		Cfg:      gen.CfgOpts{Violations: 6, Layout: true, HalfTyped: 4},
+		Cfg:      gen.CfgOpts{Violations: 6, Layout: true, HalfTyped: 8},
 		MaxPaths: 2, MaxFiles: 2, Edits: 1,
 	}
 	if g.Chance(50) {
@@ -84,9 +88,20 @@ func genC18(g gen.G) C18Case {
 		}
 	}
 	c := C18Case{World: w, Path: g.Int(0, len(w.Paths)-1)}
-	f := w.Paths[c.Path].Files[g.Int(0, len(w.Paths[c.Path].Files)-1)]
+	fi := g.Int(0, len(w.Paths[c.Path].Files)-1)
+	f := w.Paths[c.Path].Files[fi]
 	c.File = f.Name
 	pts := insertionPoints(f.Text)
+	if len(pts) > 1 && g.Chance(35) {
+		// line-1 special cases: rotate the file so that an arbitrary top-level item comes
+		// first, and insert in front of it
+		p := gen.Pick(g, pts[1:])
+		if p < len(f.Text) && strings.HasSuffix(f.Text, "\n") {
+			f.Text = f.Text[p:] + f.Text[:p]
+			w.Paths[c.Path].Files[fi].Text = f.Text
+			pts = []int{0}
+		}
+	}
 	if len(pts) > 0 {
 		c.At = gen.Pick(g, pts)
 	} else {
@@ -103,6 +118,32 @@ func genC18(g gen.G) C18Case {
 	return c
 }
 
+// wholeFileItem reports whether some node starting at offset 0 ends exactly at the end of
+// the file: its range could not be told from the root body's own extent.
+func wholeFileItem(text string) bool {
+	f, _ := hclsyntax.ParseConfig([]byte(text), "x", hcl.InitialPos)
+	body, ok := f.Body.(*hclsyntax.Body)
+	if !ok {
+		return true
+	}
+	found := false
+	_ = hclsyntax.VisitAll(body, func(n hclsyntax.Node) hcl.Diagnostics {
+		if n == hclsyntax.Node(body) {
+			return nil
+		}
+		switch n.(type) {
+		case hclsyntax.Attributes, hclsyntax.Blocks:
+			return nil
+		}
+		if rg := n.Range(); (rg.Start.Byte == 0 && rg.End.Byte == len(text)) || rg == body.Range() {
+			found = true
+		}
+		return nil
+	})
+	// (the root body of a blank or comment-only file is an empty range: any cursor range equals it)
+	return found || body.Range().Empty()
+}
+
 // topLevelCanon renders the top-level items of a file, positions shifted.
 func topLevelCanon(text string, shift func(hcl.Range) hcl.Range) (string, bool) {
 	f, _ := hclsyntax.ParseConfig([]byte(text), "x", hcl.InitialPos)
@@ -117,6 +158,8 @@ func topLevelCanon(text string, shift func(hcl.Range) hcl.Range) (string, bool) 
 		EndRange hcl.Range
 	}
 	it := items{body.Attributes, body.Blocks, body.SrcRange, body.EndRange}
+	// (the root body always starts at the start of the file: only its end moves)
+	it.SrcRange.Start = hcl.Pos{}
 	if shift == nil {
 		shift = func(rg hcl.Range) hcl.Range { return rg }
 	}
@@ -149,6 +192,22 @@ func checkC18(c C18Case) Result {
 	if !valid {
 		r.Exclude("no-insertion-point")
 		return r
+	}
+	if c.At == 0 && (wholeFileItem(orig) || !strings.Contains(strings.TrimRight(orig, "\r\n"), "\n")) {
+		// (in a one-line file the line's only item cannot be told from the root body's extent)
+		r.Exclude("precondition:item-spans-whole-file")
+		return r
+	}
+	if c.At == 0 {
+		// an unterminated call ends, for the parser, at position 0,0: a cursor at offset 0 is then
+		// "inside" an expression further down. Files whose AST carries such ranges are left out
+		// when the insertion moves the very first position.
+		if hf, _ := hclsyntax.ParseConfig([]byte(orig), c.File, hcl.InitialPos); hf != nil {
+			if fi := analyseFile(c.File, hf); len(fi.tainted) > 0 || len(fi.badKeys) > 0 {
+				r.Exclude("upstream-range")
+				return r
+			}
+		}
 	}
 	translated := orig[:c.At] + c.Insert + orig[c.At:]
 	nLines := strings.Count(c.Insert, "\n")
@@ -191,6 +250,13 @@ func checkC18(c C18Case) Result {
 		return r
 	}
 	d1, d2 := w1.Decoder(), w2.Decoder()
+	var rootOrig, rootTrans *hcl.Range
+	if b1, ok := w1.Reader.Ctx(c.World.Paths[c.Path].Path).Files[c.File].Body.(*hclsyntax.Body); ok {
+		if b2, ok := w2.Reader.Ctx(c.World.Paths[c.Path].Path).Files[c.File].Body.(*hclsyntax.Body); ok {
+			r1, r2 := b1.Range(), b2.Range()
+			rootOrig, rootTrans = &r1, &r2
+		}
+	}
 	shifted := false
 	compare := func(cl Call) {
 		cl2 := cl
@@ -202,7 +268,27 @@ func checkC18(c C18Case) Result {
 			r.Exclude("library-panic(C01)")
 			return
 		}
-		n1, size := NormResultShift(res1, shift)
+		if isPosOutOfRange(res1.Err) != isPosOutOfRange(res2.Err) {
+			// the parser lets the root body start at the first token, so a cursor in leading blanks
+			// of the first line is "outside the file" for the library; inserting lines in front
+			// changes where the root body starts (upstream)
+			r.Exclude("upstream-root-body-range")
+			return
+		}
+		sh := shift
+		if c.At == 0 {
+			// results about the root body itself (a missing required attribute, the visibility of
+			// count.index at the root) carry the root body's extent, which starts at the first
+			// token of the file before and after
+			inner := shift
+			sh = func(rg hcl.Range) hcl.Range {
+				if rg.Filename == c.File && rootOrig != nil && rg == *rootOrig {
+					return *rootTrans
+				}
+				return inner(rg)
+			}
+		}
+		n1, size := NormResultShift(res1, sh)
 		n2, _ := NormResultShift(res2, func(rg hcl.Range) hcl.Range { return rg })
 		r.Evals++
 		if size > 0 {
@@ -231,6 +317,9 @@ func checkC18(c C18Case) Result {
 			}
 		}
 	}
+	if c.At == 0 {
+		r.Class("before-the-first-item")
+	}
 	if c.At < len(orig) {
 		r.Class("before-an-item")
 	} else {
@@ -244,6 +333,11 @@ func checkC18(c C18Case) Result {
 	}
 	r.NonTrivial = shifted && c.At < len(orig)
 	return r
+}
+
+func isPosOutOfRange(err error) bool {
+	_, ok := err.(*decoder.PosOutOfRangeError)
+	return ok
 }
 
 func TestC18(t *testing.T)        { Run(t, "C18", genC18, checkC18) }
